@@ -16,6 +16,11 @@ BIN = {"<": "lt", "<=": "le", ">": "gt", ">=": "ge", "==": "eq", "!=": "ne", "|"
 UN = {"~": "not", "!": "lnot", "-": "neg", "+": "pos", "*": "deref", "&": "addr"}
 SKIP = ("ImplicitCastExpr", "ParenExpr", "ExprWithCleanups", "MaterializeTemporaryExpr", "CXXBindTemporaryExpr", "ConstantExpr")
 
+def walk(n):
+    yield n
+    for c in n.get("inner", []):
+        yield from walk(c)
+
 def canon(n):
     k = n.get("kind")
     inner = n.get("inner", [])
@@ -23,7 +28,9 @@ def canon(n):
     if k == "CompoundStmt": return "{" + ";".join(canon(c) for c in inner) + "}" if len(inner) != 1 else canon(inner[0])
     if k == "IfStmt": return "if(" + ",".join(canon(c) for c in inner) + ")"
     if k == "BinaryOperator": return "%s(%s,%s)" % (BIN.get(n.get("opcode"), "?op" + str(n.get("opcode"))), canon(inner[0]), canon(inner[1]))
-    if k == "UnaryOperator": return "%s(%s)" % (UN.get(n.get("opcode"), "?un" + str(n.get("opcode"))), canon(inner[0]))
+    if k == "UnaryOperator":
+        if n.get("opcode") in ("++", "--"): return "%s%s(%s)" % ("post" if n.get("isPostfix") else "pre", "inc" if n.get("opcode") == "++" else "dec", canon(inner[0]))
+        return "%s(%s)" % (UN.get(n.get("opcode"), "?un" + str(n.get("opcode"))), canon(inner[0]))
     if k == "DeclRefExpr": return n.get("referencedDecl", {}).get("name", "?ref")
     if k == "MemberExpr":
         base = inner[0] if inner else {}
@@ -42,6 +49,16 @@ def canon(n):
     if k == "ArraySubscriptExpr": return "index(%s,%s)" % (canon(inner[0]), canon(inner[1]))
     if k in ("CXXStaticCastExpr", "CStyleCastExpr", "CXXFunctionalCastExpr"): return "cast(%s)" % canon(inner[0])
     if k == "CompoundAssignOperator": return "%s_assign(%s,%s)" % (BIN.get((n.get("opcode") or "?")[:-1], "?op"), canon(inner[0]), canon(inner[1]))
+    if k == "CXXThrowExpr": return "throw"
+    if k == "BreakStmt": return "break"
+    if k == "ContinueStmt": return "continue"
+    if k == "NullStmt": return "skip"
+    if k == "ConditionalOperator": return "cond(%s,%s,%s)" % tuple(canon(c) for c in inner[:3])
+    if k == "SwitchStmt": return "switch(" + ",".join(canon(c) for c in inner) + ")"
+    if k == "CaseStmt": return "case(" + ",".join(canon(c) for c in inner) + ")"
+    if k == "DefaultStmt": return "default(" + ",".join(canon(c) for c in inner) + ")"
+    if k == "ForStmt": return "for(" + ",".join(canon(c) if c.get("kind") else "_" for c in inner) + ")"
+    if k in ("CXXConstructExpr", "CXXTemporaryObjectExpr") and len(inner) == 1: return canon(inner[0])
     if k == "WhileStmt": return "while(" + ",".join(canon(c) for c in inner) + ")"
     if k == "CallExpr": return "fcall(" + ",".join(canon(c) for c in inner) + ")"
     return "?" + str(k)
